@@ -91,6 +91,8 @@ def walk_loop_p_vc(eos_set):
             # the walk updates y_lens in place after this call: the contract's formulas are over the values AT the call (frozen copies)
             lt, lp, y, ln = (stn.ST(x.shape, x.elem, x.dtype) if isinstance(x, stn.ST) else x for x in (lt, lp, y, ln))
             LS = I2.ex.ghost.get("log_softmaxes", [])
+            if len(LS) != 1:
+                raise ip.Unsupported("the step does not normalise the model's scores with exactly one log_softmax")
             I2.ex.oblige("structure.one_log_softmax_per_step", z3.BoolVal(len(LS) == 1 and LS[-1]["dim"] == 1))
             lsf = LS[-1]["LS"]
             cur["ls"] = lsf
